@@ -30,3 +30,15 @@ add(
     "Exploration: Hypothesis-generated programs (quick 8k, thorough 100k; constructor variants incl. invalid ones, then <= 30 size / initialized_size / content / block offset+size / address edits, probes and save+load steps) run against a bytearray+size model; after every step initialized_size, contents, size, stored<=size, every block's address, contents slice, contains_offset/contains_address at all range boundaries are compared, and every save must load back. Sampling of histories, not proof.",
     "Trusts the 40-line model in checks/c19_bytes.py (written from the property text and doc/general/ByteInterval.md), Hypothesis.",
 )
+add(
+    "C01",
+    "round-trip property over generated IR specs realised through generated construction routes; snapshot equality + deep_eq + re-save comparison",
+    "Exploration: Hypothesis-generated self-contained IR specs (quick 3k, thorough ~45k; boundary-biased scalars, every schema enum number, all reference kinds, AuxData at both levels) are built through the public API along generated routes (parent= keywords, constructor children, collection add/update/|=/append/insert/extend, parent-attribute assignment, late attribute assignment), saved and loaded under both protobuf backends; the public-attribute snapshot of the loaded IR must equal the original's (which must equal what the spec implies), deep_eq must hold both ways, the re-saved file must have the same content (never-read AuxData byte for byte) and so must a third save after all AuxData was read. Sampling, not proof.",
+    "Trusts vlib/spec.py, irbuild.py, snapshot.py, refmsg.py (harness), the protobuf runtime, vlib/protoc_lite.py.",
+)
+add(
+    "C02",
+    "two one-directional differentials (writer, reader) against an independent rendition of the .proto schema, under both protobuf backends",
+    "Exploration: for generated IR specs (quick 4.5k, thorough ~60k) the writer's message (parsed with the generated classes) must equal, field by field, the message a reference writer builds straight from the spec (presence flags, one-ofs, enum numbers, attribute flags, cfg.vertices, 16-byte UUIDs, 8-byte header), and the loader must turn reference-written messages - including variations no Python writer emits (address without presence flag, duplicated flags/attributes/edges, arbitrary vertices, reordered repeated fields, every declared enum number) - into exactly the IR a reference reader computes. Sampling, not proof.",
+    "Trusts vlib/refmsg.py (reference writer/reader over the generated message classes), vlib/protoc_lite.py, the protobuf runtime.",
+)
